@@ -974,10 +974,12 @@ impl Bgi {
     }
 
     pub fn flood_fill(&mut self, x: i32, y: i32, border: u8) {
-        if !self.viewport.contains(x, y) {
+        // the seed must be a pixel of the viewport (contains() includes the right and bottom edge)
+        if !self.viewport.contains(x, y) || x >= self.viewport.right() || y >= self.viewport.bottom() {
             return;
         }
-        let mut fill_lines = vec![Vec::new(); self.viewport.get_height() as usize];
+        // rows are indexed by their screen coordinate
+        let mut fill_lines = vec![Vec::new(); self.window.height.max(0) as usize];
         let mut point_stack = Vec::new();
 
         if self.screen[(y * self.window.width + x) as usize] != border {
@@ -1739,6 +1741,9 @@ impl Bgi {
     }
 
     pub fn set_viewport(&mut self, x0: i32, y0: i32, x1: i32, y1: i32) {
+        // the viewport is a part of the window: everything that scans it indexes the screen
+        let (x0, y0) = (x0.clamp(0, self.window.width), y0.clamp(0, self.window.height));
+        let (x1, y1) = (x1.clamp(x0, self.window.width), y1.clamp(y0, self.window.height));
         self.viewport = Rectangle::from(x0, y0, x1 - x0, y1 - y0);
     }
     pub fn clear_viewport(&mut self) {
